@@ -57,7 +57,7 @@ pred RepInv(r reporter.Reporter) :=
   && (typeis(r, "*balance.balanceSingleReporter") ==> BalSInv(ptr(balance.balanceSingleReporter, payload(r))))
   && (typeis(r, "*register.elementByFoodReporter") ==> EbfInv(ptr(register.elementByFoodReporter, payload(r))))
   && (typeis(r, "*register.regReporter") ==> DBOk(cellat(register.regReporter, payload(r)).db))
-  && (typeis(r, "*register.singleReporter") ==> DBOk(cellat(register.singleReporter, payload(r)).db))
+  && (typeis(r, "*register.singleReporter") ==> DBIs(cellat(register.singleReporter, payload(r)).db))
   && (typeis(r, "*register.regReporterTemplate") ==> cellat(register.regReporterTemplate, payload(r)).template != nil && DBIs(cellat(register.regReporterTemplate, payload(r)).db))
   && (typeis(r, "*summary.SummaryReporterTemplate") ==> cellat(summary.SummaryReporterTemplate, payload(r)).template != nil && DBIs(cellat(summary.SummaryReporterTemplate, payload(r)).db))
   && (typeis(r, "*report.UnsolvedReporter") ==> UnsInv(ptr(report.UnsolvedReporter, payload(r))))
@@ -86,6 +86,7 @@ func FlushOnExit
 pred RepBookBelow(r reporter.Reporter, lo int) :=
      (typeis(r, "*balance.balanceSingleReporter") ==> DBBelow(cellat(balance.balanceSingleReporter, payload(r)).db, lo))
   && (typeis(r, "*register.regReporterTemplate") ==> DBBelow(cellat(register.regReporterTemplate, payload(r)).db, lo))
+  && (typeis(r, "*register.singleReporter") ==> DBBelow(cellat(register.singleReporter, payload(r)).db, lo))
   && (typeis(r, "*summary.SummaryReporterTemplate") ==> DBBelow(cellat(summary.SummaryReporterTemplate, payload(r)).db, lo))
   && (typeis(r, "*report.TotalReporter") ==> DBBelow(cellat(report.TotalReporter, payload(r)).db, lo))
 
